@@ -483,9 +483,10 @@ pub fn compute_lattice_index(rows: &Vec<Vec<i64>>, hmin: f64, hmax: f64) -> u128
                 if gg.add(&rows[idx]) {
                     indices.push(idx);
                     let logest = gg.detlog2_estimate();
-                    let det = if logest <= 30.0 {
-                        let d = gg.det_estimate();
-                        assert!((d - d.round()).abs() < 0.0001);
+                    // Small determinants are read off the floating-point estimate, unless cancellation
+                    // in the Gram-Schmidt process (large entries, small determinant) made it inexact.
+                    let d = gg.det_estimate();
+                    let det = if logest <= 30.0 && (d - d.round()).abs() < 0.0001 {
                         I4096::from(d.round() as i64)
                     } else {
                         b.det(&rows[idx], logest)
